@@ -185,6 +185,95 @@ def layered_case(draw, max_width=4, max_layers=3, jobs=(2, 3, 3, 4, 5), p_fail_d
     return case
 
 
+@st.composite
+def sandwich_case(draw, jobs=(None, 1, 2, 3, 3, 4), flags=(), p_fail_den=6, tape_max=40, tape_hi=31, max_top=4, max_mid=4, max_bot=3):
+    """Three strata: executing tasks on top, a DAG of CACHED experiments in the middle (the region the planner prunes),
+    executing tasks at the bottom that the top also reaches directly.  Every dependent of a cached task must still be
+    ordered after (and skipped with) the bottom tasks hidden behind it; the middle region has several paths and
+    shared nodes, and every dependency list is listed in a generated order."""
+    pkgs = draw(st.sampled_from(PKG_SETS))
+    nt = draw(st.sampled_from(range(1, max_top + 1)))
+    nm = draw(st.sampled_from(range(1, max_mid + 1)))
+    nb = draw(st.sampled_from(range(1, max_bot + 1)))
+    tasks = []
+
+    def add(kind, base):
+        i = len(tasks)
+        t = {"pkg": draw(st.sampled_from(range(len(pkgs)))), "name": "%s%d" % (base, i), "kind": kind, "deps": []}
+        if kind in PROC_KINDS:
+            t["par"] = draw(st.sampled_from([True, True, True, False]))
+        tasks.append(t)
+        return i
+    top = [add(draw(st.sampled_from(["cmd", "cmd", "exp", "group", "combine"])), "a") for _ in range(nt)]
+    mid = [add("exp", "m") for _ in range(nm)]
+    bot = [add(draw(st.sampled_from(["cmd", "cmd", "exp"])), "r") for _ in range(nb)]
+
+    def pick(cands, at_least_one=False, thin=False):
+        if not cands:
+            return []
+        mask = draw(_mask(len(cands)))
+        if thin:
+            mask &= draw(_mask(len(cands)))
+        out = [c for b, c in enumerate(cands) if (mask >> b) & 1]
+        if at_least_one and not out:
+            out = [draw(st.sampled_from(cands))]
+        return out
+    # most top tasks reach the bottom only THROUGH the cached region; separate "anchor" tasks (x -> r) make the bottom
+    # tasks execute in this invocation
+    for k, i in enumerate(top):
+        deps = pick(top[k + 1:], thin=True) + pick(mid, at_least_one=True, thin=(nm > 2)) + pick(bot, thin=True)
+        tasks[i]["deps"] = deps
+    anchors = []
+    for r in bot:
+        if draw(st.sampled_from(range(4))) != 0:
+            x = add("cmd", "x")
+            tasks[x]["deps"] = [r]
+            anchors.append(x)
+    for k, i in enumerate(mid):
+        tasks[i]["deps"] = pick(mid[k + 1:]) + pick(bot, at_least_one=(k == len(mid) - 1))
+    for k, i in enumerate(bot):
+        tasks[i]["deps"] = pick(bot[k + 1:])
+    # a root that reaches everything on top (so that every stratum is in the closure) unless there is a single top task
+    if nt + len(anchors) > 1:
+        root = add(draw(st.sampled_from(["group", "cmd"])), "root")
+        tasks[root]["deps"] = list(top) + anchors
+        if draw(st.booleans()):
+            tasks[root]["deps"] += pick(bot)
+        target = root
+    else:
+        target = top[0]
+    for t in tasks:
+        deps = t["deps"]
+        if t["kind"] == "combine":
+            seen, uniq = set(), []
+            for d in deps:
+                if tasks[d]["name"] not in seen:
+                    seen.add(tasks[d]["name"])
+                    uniq.append(d)
+            deps = uniq
+        if len(deps) > 1:
+            deps = list(draw(st.permutations(deps)))
+        t["deps"] = [[d, draw(st.sampled_from(["rel", "abs"]))] for d in deps]
+    case = {"pkgs": pkgs, "tasks": tasks, "target": target}
+    case["seeded"] = {str(i): [draw(st.sampled_from([100, 200, 300]))] for i in mid}
+    # now and then one of the middle experiments is NOT cached (an executing island inside the pruned region)
+    if nm > 1 and draw(st.sampled_from(range(4))) == 0:
+        del case["seeded"][str(draw(st.sampled_from(mid)))]
+    case["jobs"] = draw(st.sampled_from(list(jobs)))
+    case["flags"] = [f for f in flags if draw(st.sampled_from([0, 0, 0, 1]))]
+    oc = {}
+    for i in bot + top:
+        if tasks[i]["kind"] in PROC_KINDS and draw(st.sampled_from(range(p_fail_den))) == 0:
+            oc[str(i)] = draw(st.sampled_from([{"exit": 10 + i}, {"exit": 10 + i}, {"signal": 9}, {"launch": "eagain"}]))
+    case["outcomes"] = oc
+    tlen = draw(st.sampled_from([0, 10, 20, tape_max]))
+    case["tape"] = draw(st.lists(st.sampled_from([0] * (2 * tape_hi) + list(range(1, tape_hi + 1))),
+                                 min_size=tlen, max_size=tlen))
+    case["foreign"] = 0
+    case["sandwich"] = True
+    return case
+
+
 def expected_code(outcome):
     """The number Conductor reports for a failed task (exit code, or signal number)."""
     if "signal" in outcome:
